@@ -381,7 +381,14 @@ impl<'a> MsgHdrBorrow<'a> {
         cmsg_buf: Option<&'a mut [u8]>,
     ) -> Self {
         let (ctrl, ctrl_len) = if let Some(cm_buf) = cmsg_buf {
-            (cm_buf.as_mut_ptr(), cm_buf.len())
+            // The records the kernel writes are read back through `*mut CmsgHdr`: only hand over
+            // the part of the buffer that starts at a suitably aligned address.
+            let pad = cm_buf
+                .as_ptr()
+                .align_offset(core::mem::align_of::<CmsgHdr>())
+                .min(cm_buf.len());
+            let aligned = &mut cm_buf[pad..];
+            (aligned.as_mut_ptr(), aligned.len())
         } else {
             (core::ptr::null_mut(), 0)
         };
